@@ -482,10 +482,10 @@ def compose_text(mother, daughters, tops, sublines, distract, option, layout, or
 
 def c17_cases(tier="quick", seed=0):
     """Yield dict(label, text).  Exhaustive core: for every event type, every selection of 1 or 2 top lines
-    (plus sliding windows of 3 and 4), every vector of alternative counts 0..3 for (up to 2 of) the bare names
-    of the selection; option, layout, order and table variants are cycled so that every variant value occurs
-    with every event type.  thorough: alternative counts for up to 3 names and every option variant for every
-    selection."""
+    (plus sliding windows of 3 and 4), every vector of alternative counts 0..3 for the first 2 bare names of
+    the selection (first name only for selections of 2 lines); option, layout, order and table variants are cycled so that every variant value occurs
+    with every event type.  thorough: alternative counts for up to 3 names, and every option variant for every
+    selection of 1, 3 or 4 lines."""
     for et in c17_event_types():
         tops = et["tops"]
         sel = [(i,) for i in range(len(tops))]
@@ -500,11 +500,12 @@ def c17_cases(tier="quick", seed=0):
                 for b in bare_names(t):
                     if b in et["subs"] and b not in direct:
                         direct.append(b)
-            nfull = 3 if tier == "thorough" else 2
+            nfull = 3 if tier == "thorough" else (1 if len(s) == 2 else 2)
             full, rest = direct[:nfull], direct[nfull:]
             others = [k for k in et["subs"] if k not in direct]
             kvecs = list(itertools.product(range(4), repeat=len(full))) or [()]
-            opts = OPTION_VARIANTS if tier == "thorough" else [None]
+            exhaust_opts = tier == "thorough" and len(s) != 2
+            opts = OPTION_VARIANTS if exhaust_opts else [None]
             for kv in kvecs:
                 for o_fixed in opts:
                     counter += 1
@@ -514,7 +515,7 @@ def c17_cases(tier="quick", seed=0):
                     for j, nm in enumerate(others):
                         kmap[nm] = (counter // 2 + j) % 4
                     sublines = _closure(chosen, et["subs"], kmap)
-                    option = o_fixed if tier == "thorough" else OPTION_VARIANTS[counter % len(OPTION_VARIANTS)]
+                    option = o_fixed if exhaust_opts else OPTION_VARIANTS[counter % len(OPTION_VARIANTS)]
                     layout = (counter // 2) % N_LAYOUTS
                     order = (counter // 3) % N_ORDERS
                     tables = (counter // 5) % N_TABLES
@@ -625,7 +626,7 @@ def fourbody_structures(mother, daughters):
 def model_requirements(trees):
     """Parameter and constant lines a set of complete trees needs (P-PARS of C19):
     GSpline.EFF on X: constants X::Spline::Min/Max/N and parameters X::Spline::Gamma::0..N-1;
-    kMatrix.*: f_scatt0..4, IS_p{1..5}_{channel}, sA_0, sA, s0_prod, s0_scatt."""
+    kMatrix.*: f_scatt0..4, IS_p{1..5}_{channel}, sA0 (AmpGen's name; its symbol is sA_0), sA, s0_prod, s0_scatt."""
     splined = []
     kmat = False
 
@@ -654,7 +655,7 @@ def model_requirements(trees):
         for k in range(5):
             pars.append((f"f_scatt{k}", "2", repr(round(0.23399 - 0.1 * k, 5)), "0"))
         pars += [("s0_prod", "2", "-1", "0"), ("s0_scatt", "2", "-3.92637", "0"), ("sA", "2", "1", "0"),
-                 ("sA_0", "2", "-0.15", "0")]
+                 ("sA0", "2", "-0.15", "0")]
     return consts, pars
 
 
@@ -706,8 +707,8 @@ def fourbody_models(tier="quick", seed=0, supported=True):
 
     Enumeration: for each event type every structure of ``fourbody_structures`` that is (not) in the list of
     supported spin structures, combined with lineshape kinds for its two resonances (quick: the 5x5 grid of
-    the first five kinds is covered once per (event type, structure class, wave), cycling over the resonance
-    choices; thorough: every resonance choice with a 9x9 grid cycled), fixed/free couplings cycled, grouped
+    the first five kinds is cycled over the resonance choices of each (event type, structure class, wave), two
+    grid points per structure for the first event type, one for the others; thorough: every resonance choice with a 9x9 grid cycled), fixed/free couplings cycled, grouped
     into files of 1..7 amplitudes, written complete, or with one / both resonances given on separate lines.
     """
     rnd = random.Random(seed)
@@ -727,7 +728,8 @@ def fourbody_models(tier="quick", seed=0, supported=True):
             if tier == "thorough":
                 grid = [((k * 7 + j) % 9, (k * 7 + j) // 9 % 9) for j in range(7)]
             else:
-                grid = [((k * 2 + j) % 5, ((k * 2 + j) // 5) % 5) for j in range(2)]
+                per = 2 if ei == 0 else 1
+                grid = [((k * per + j) % 5, ((k * per + j) // 5) % 5) for j in range(per)]
             for (i1, i2) in grid:
                 amps.append(with_lineshapes(t, LINESHAPES[i1], LINESHAPES[i2]))
         if not supported:
@@ -814,7 +816,7 @@ a(1)(1260)+_mass 0 1195.05 1.04514
             kpars.append(f"IS_p{p}_{ch} 2 {round(0.1 * p - 0.07 * KMATRIX_CHANNELS.index(ch), 5)} 0")
     for k in range(5):
         kpars.append(f"f_scatt{k} 2 {round(0.23399 - 0.1 * k, 5)} 0")
-    kpars += ["s0_prod 2 -1 0", "s0_scatt 2 -3.92637 0", "sA 2 1 0", "sA_0 2 -0.15 0"]
+    kpars += ["s0_prod 2 -1 0", "s0_scatt 2 -3.92637 0", "sA 2 1 0", "sA0 2 -0.15 0"]
     f3 = """EventType D0 K- pi+ pi+ pi-
 FastCoherentSum::UseCartesian 0
 D0{KPi00,PiPi00}                            2 1 0 2 0 0
